@@ -84,6 +84,7 @@ Section Dap.
 
   Inductive obs :=
   | OResp (r : request)                   (* success response without interesting body *)
+  | OError (r : request)                  (* error response: run control refused while the machine is launching *)
   | OStack (s : rstate)                   (* stackTrace: a frame for Stopped(pc), no frame otherwise *)
   | ORegs (c : cpu)                       (* variables(Registers) / one of evaluate's two reads: a snapshot of the runner *)
   | OEvent (e : dapevent).
@@ -137,6 +138,11 @@ Section Dap.
     | REvaluate => SEvalRegs
     end.
 
+  (* requests served through started_machine_adapter_mut *)
+  Definition needs_started (r : request) : bool :=
+    match r with RContinue | RPause | RStep _ => true | _ => false end.
+  Definition is_launching (x : rstate) : bool := match x with Launching => true | _ => false end.
+
   (* handle_machine_event *)
   Definition event_of (e : mevent) : option (option dapevent) :=   (* None = panic *)
     match e with
@@ -186,7 +192,15 @@ Section Dap.
     | M_execute =>
         match ml s with MChecked => Some (do_execute s, []) | _ => None end
     | S_req r =>
-        match sl s with SIdle => Some (set_sl s (entry r), []) | _ => None end
+        match sl s with
+        | SIdle =>
+            (* DebugSession::started_machine_adapter_mut: continue / pause / next / stepIn / stepOut are answered with an
+               error while running_state() is Launching (a read under the state lock); nothing else happens *)
+            if needs_started r && is_launching (rs s) then
+              (if state_locked p s then None else Some (s, [OError r]))
+            else Some (set_sl s (entry r), [])
+        | _ => None
+        end
     | S_start =>
         match sl s with
         | SStart => if state_locked p s then None
@@ -285,4 +299,4 @@ Arguments mk {cpu}.
 Arguments rs {cpu}. Arguments cp {cpu}. Arguments bps {cpu}. Arguments conn {cpu}. Arguments chan {cpu}.
 Arguments ml {cpu}. Arguments lcp {cpu}. Arguments sl {cpu}.
 Arguments init {cpu}.
-Arguments OResp {cpu}. Arguments OStack {cpu}. Arguments ORegs {cpu}. Arguments OEvent {cpu}.
+Arguments OResp {cpu}. Arguments OError {cpu}. Arguments OStack {cpu}. Arguments ORegs {cpu}. Arguments OEvent {cpu}.
